@@ -407,3 +407,20 @@ pub fn u32field_add(a: u32, b: u32) -> u32 {
 pub fn u32field_sub(a: u32, b: u32) -> u32 {
     (crate::u32_field::U32Field(a) - crate::u32_field::U32Field(b)).0
 }
+
+fn u32poly(a: &[u32]) -> Polynomial<crate::u32_field::U32Field> {
+    Polynomial::new(a.iter().map(|&x| crate::u32_field::U32Field(x)).collect())
+}
+fn u32vec(p: Polynomial<crate::u32_field::U32Field>) -> Vec<u32> {
+    p.coefficients.into_iter().map(|x| x.0).collect()
+}
+/// forward / inverse NTT over the 30-bit prime as babai_reduce_i32 uses them (length 2..=1024)
+pub fn u32field_fft(a: &[u32]) -> Vec<u32> {
+    u32vec(u32poly(a).fft())
+}
+pub fn u32field_ifft(a: &[u32]) -> Vec<u32> {
+    u32vec(u32poly(a).ifft())
+}
+pub fn u32field_hadamard_mul(a: &[u32], b: &[u32]) -> Vec<u32> {
+    u32vec(u32poly(a).hadamard_mul(&u32poly(b)))
+}
